@@ -25,8 +25,13 @@ Quirks reproduced: the deferred function removes the mutex from the table AFTER 
 new mutex while earlier ones may still wait on the old one (two threads can then be inside "the" critical section at
 once — harmless only because the entry is never nil again); a lookup that sees the placeholder of an instantiation in
 progress answers not-found (known finding C13-placeholder-of-running-instantiation-visible).
-Not modelled: the instantiator's nested lookups (they resolve core type names in the ancestors), parse errors, type sets,
-qualified names.
+A file whose instantiator RAISES (`Config.broken`: a parse error — PARSE_ERROR — or a file that defines another name —
+PCORE_WRONG_DEFINITION): the file is read (once), the panic skips `return l.GetEntry(rn)`, the deferred function releases
+the mutex and removes it from the table, `load` re-raises; the placeholder STAYS installed, so every later lookup of the
+name answers not-found without reading the file again (a quirk: the error is reported to one caller only).
+Not modelled: the instantiator's nested lookups (an alias file `type A = B` resolves B through the same loader from
+inside A's instantiator — see the implementation-only op `@C13 nested` and work/defect-C13-nested-lookup-meets-placeholder.md),
+type sets, qualified names.
 -/
 namespace Pcore.Instantiate
 open Pcore.LoaderSeq
@@ -65,6 +70,7 @@ structure Thread where
 
 structure Config where
   files : List (Key × V)                        -- what is on disk: key ↦ the definition its file holds (never changes)
+  broken : List (Key × String)                  -- files whose instantiator RAISES (a parse error, a definition of another name): key ↦ issue code
   es : Ents                                     -- the loader's own entry map
   locks : List (Key × Mx)                       -- `l.locks`
   held : List (Mx × Nat)                        -- mutexes currently locked, with the thread that locked each (ghost)
@@ -80,6 +86,10 @@ def lookupMx (k : Key) : List (Key × Mx) → Option Mx
 def fileOf (k : Key) : List (Key × V) → Option V
   | [] => none
   | (k', v) :: r => if k' = k then some v else fileOf k r
+
+def brokenOf (k : Key) : List (Key × String) → Option String
+  | [] => none
+  | (k', c) :: r => if k' = k then some c else brokenOf k r
 
 /-- what `load` answers for an entry it got -/
 def ansOfEntry : Option (Option V) → Ans
@@ -97,7 +107,7 @@ structure Shared where
 def Config.shared (c : Config) : Shared := { es := c.es, locks := c.locks, held := c.held, nextMx := c.nextMx, reads := c.reads }
 
 /-- one atomic step of one thread (a thread waiting for a held mutex does not move) -/
-def stepThread (files : List (Key × V)) (i : Nat) (s : Shared) (t : Thread) : Shared × Thread :=
+def stepThread (files : List (Key × V)) (broken : List (Key × String)) (i : Nat) (s : Shared) (t : Thread) : Shared × Thread :=
   match t.pc with
   | .idle =>
     match t.ops with
@@ -113,7 +123,10 @@ def stepThread (files : List (Key × V)) (i : Nat) (s : Shared) (t : Thread) : S
     | e => (s, { t with pc := .idle, log := t.log ++ [ansOfEntry e] })
   | .ldFind k =>
     match fileOf k files with
-    | none => (s, { t with pc := .ldCacheMiss k })
+    | none =>
+      match brokenOf k broken with
+      | none => (s, { t with pc := .ldCacheMiss k })
+      | some _ => (s, { t with pc := .instTable k })                  -- the file exists; that it cannot be instantiated shows later
     | some _ => (s, { t with pc := .instTable k })
   | .ldCacheMiss k =>
     ({ s with es := (setEntry s.es k none).1 }, { t with pc := .idle, log := t.log ++ [.notfound] })
@@ -132,27 +145,36 @@ def stepThread (files : List (Key × V)) (i : Nat) (s : Shared) (t : Thread) : S
   | .instRun k m =>
     match fileOf k files with
     | some v => ({ s with es := (setEntry s.es k (some v)).1, reads := k :: s.reads }, { t with pc := .instRet k m })
-    | none => (s, { t with pc := .instRet k m })                       -- unreachable: instantiate is entered for files only
+    | none =>
+      match brokenOf k broken with
+      | some code =>
+        -- the instantiator reads the file and PANICS (types.ParseFile / WrongDefinition): `return l.GetEntry(rn)` is skipped,
+        -- the deferred function unlocks and deletes the mutex, `load` re-raises; the placeholder stays installed
+        ({ s with reads := k :: s.reads }, { t with pc := .instUnlock k m (.reported code) })
+      | none => (s, { t with pc := .instRet k m })                     -- unreachable: instantiate is entered for files only
   | .instRet k m => (s, { t with pc := .instUnlock k m (ansOfEntry (lk k s.es)) })
   | .instUnlock k m a => ({ s with held := s.held.filter (fun p => p.1 != m) }, { t with pc := .instDelete k a })
   | .instDelete k a =>
     ({ s with locks := s.locks.filter (fun p => p.1 != k) }, { t with pc := .idle, log := t.log ++ [a] })
 
 def Config.withShared (c : Config) (s : Shared) (th : List Thread) : Config :=
-  { files := c.files, es := s.es, locks := s.locks, held := s.held, nextMx := s.nextMx, reads := s.reads, th := th }
+  { files := c.files, broken := c.broken, es := s.es, locks := s.locks, held := s.held, nextMx := s.nextMx, reads := s.reads, th := th }
 
 def stepAt (c : Config) (i : Nat) : Config :=
   match c.th[i]? with
   | none => c
-  | some t => c.withShared (stepThread c.files i c.shared t).1 (c.th.set i (stepThread c.files i c.shared t).2)
+  | some t => c.withShared (stepThread c.files c.broken i c.shared t).1 (c.th.set i (stepThread c.files c.broken i c.shared t).2)
 
 inductive Reachable (c0 : Config) : Config → Prop where
   | init : Reachable c0 c0
   | step {c : Config} (i : Nat) : Reachable c0 c → Reachable c0 (stepAt c i)
 
-def Config.init (files : List (Key × V)) (progs : List (List FOp)) : Config :=
-  { files := files, es := [], locks := [], held := [], nextMx := 0, reads := [],
+def Config.initB (files : List (Key × V)) (broken : List (Key × String)) (progs : List (List FOp)) : Config :=
+  { files := files, broken := broken, es := [], locks := [], held := [], nextMx := 0, reads := [],
     th := progs.map fun p => { pc := .idle, ops := p, log := [] } }
+
+/-- every file can be instantiated -/
+def Config.init (files : List (Key × V)) (progs : List (List FOp)) : Config := Config.initB files [] progs
 
 /-! ### the deterministic scheduler of harness/c13 (`files` lines) -/
 
@@ -198,8 +220,10 @@ def drainThread : Nat → Config → Nat → Config
 def drainPass (c : Config) : Config :=
   (List.range c.th.length).foldl (fun c i => drainThread (4 * (c.th.getD i default).ops.length + 4) c i) c
 
-def execute (files : List (Key × V)) (progs : List (List FOp)) (sched : List Nat) : Config :=
-  let c := runSched (Config.init files progs) sched
+def executeB (files : List (Key × V)) (broken : List (Key × String)) (progs : List (List FOp)) (sched : List Nat) : Config :=
+  let c := runSched (Config.initB files broken progs) sched
   (List.range c.th.length).foldl (fun c _ => drainPass c) c
+
+def execute (files : List (Key × V)) (progs : List (List FOp)) (sched : List Nat) : Config := executeB files [] progs sched
 
 end Pcore.Instantiate
